@@ -22,7 +22,7 @@ SEMANTIC = (
     'type invariant',
     'possible overflow',
     'failed precondition',
-    'loop invariant',
+    'loop invariant not satisfied',
     'could not prove termination',
     'unable to prove',
     'constructed value may fail to meet its declared type invariant',
@@ -52,6 +52,8 @@ class Diag:
         for r in RESOURCE:
             if r in low:
                 return 'resource'
+        if 'unless #[verifier::' in low or 'not supported' in low:
+            return 'other'       # the verifier refuses the construct: a tool limit, never a property violation
         for s in SEMANTIC:
             if s in low:
                 return 'semantic'
